@@ -29,7 +29,7 @@ func (c16) Assumptions() []string {
 	return []string{"results of failing calls are not constrained (the property speaks of success)", "inputs are sampled (string tokens with every escape kind, raw invalid UTF-8, documents of all classes)"}
 }
 func (c16) Required(tier string) []string {
-	return []string{"D-dirty", "X-overwrite", "dst-grew", "dst-fit-exactly", "escape-with-dirty-dst", "scratch-reused-by-later-call", "failing-call-input-checked", "tree-snapshot-rechecked", "dst-ends-mid-sequence-input-starts-with-continuation", "empty-container-returned-then-reader-reused", "earlier-input-rechecked", "M-guard"}
+	return []string{"D-dirty", "X-overwrite", "dst-grew", "dst-fit-exactly", "escape-with-dirty-dst", "scratch-reused-by-later-call", "failing-call-input-checked", "tree-snapshot-rechecked", "dst-ends-mid-sequence-input-starts-with-continuation", "empty-container-returned-then-reader-reused", "earlier-input-rechecked", "M-guard", "thousands-of-never-seen-field-names", "long-token-appended-to-dirty-dst", "argument-tree-mutated-after-StdLibCompatible-copy"}
 }
 
 var dstPrefixLens = []int{0, 1, 5, 37}
@@ -141,6 +141,10 @@ func c16DocFor(r *Rand, name string) Doc {
 		if r.Chance(1, 10) {
 			return genDoc(r, "tiny")
 		}
+		if r.Chance(1, 8) {
+			// long tokens: the branches behind size thresholds (256 .. 64 Ki, plain run first)
+			return docOf(withTrailer(r, genLongStringToken(r)), "long-string-token")
+		}
 		return genStringTokenDoc(r)
 	case "UnescapeStringContent":
 		return genStringContentDoc(r)
@@ -174,6 +178,18 @@ func (c16) Gen(r *Rand, sc *Scenario, tier string) {
 		style := 40 * r.Intn(6)
 		for cfg := 1 + style; cfg <= 40+style; cfg++ {
 			ops = append(ops, Op{Kind: name, Doc: 0, B: cfg, C: r.Intn(2)})
+		}
+		sc.Tasks = [][]Op{ops}
+		return
+	}
+	if r.Chance(1, 40) {
+		// one reader, 2-4 documents with thousands of never-seen field names each; every tree is kept
+		base := 0
+		for i, n := 0, r.Range(2, 4); i < n; i++ {
+			k := []int{3000, 5000, 9000}[r.Intn(3)]
+			sc.Docs = append(sc.Docs, genDistinctKeysDoc(r, base, k))
+			base += k
+			ops = append(ops, Op{Kind: []string{"VR.ReadValue", "VR.ReadObject", "VR.ReadArray", "ReadValue"}[r.Pick(4, 1, 1, 2)], Doc: i})
 		}
 		sc.Tasks = [][]Op{ops}
 		return
@@ -334,6 +350,12 @@ func (c16) Exec(sc *Scenario, st *Stats) *Violation {
 			}
 		}
 		tgBefore := *tg
+		if d.Class == "many-distinct-keys" {
+			st.probe("thousands-of-never-seen-field-names")
+		}
+		if d.Class == "long-string-token" && isAppender && op.B != 0 {
+			st.probe("long-token-appended-to-dirty-dst")
+		}
 		if d.Class == "small-container" && oi > 0 {
 			st.probe("empty-container-returned-then-reader-reused")
 		}
@@ -413,6 +435,13 @@ func (c16) Exec(sc *Scenario, st *Stats) *Violation {
 			if live != nil {
 				keptVals = append(keptVals, kept{live: live, snap: deepSnap(live), where: fmt.Sprintf("op %d %s", oi, op.Kind)})
 			}
+			if op.Kind == "StdLibCompatibleTree" && x.srcTree != nil && live != nil {
+				// the helper's argument is a "later change to the input" away from being modified by its
+				// owner: overwrite every element and member of the argument tree, at every depth; the
+				// returned copy (snapshot taken above, re-compared below) must not notice
+				scrubTree(x.srcTree)
+				st.probe("argument-tree-mutated-after-StdLibCompatible-copy")
+			}
 		}
 		// the input stays alive; a later call (sharing a scratch buffer or a reader with this one) must not write to it either
 		ki := keptInput{data: data, snap: snapIn, where: fmt.Sprintf("op %d %s", oi, op.Kind)}
@@ -451,4 +480,21 @@ func (c16) Exec(sc *Scenario, st *Stats) *Violation {
 		}
 	}
 	return nil
+}
+
+// scrubTree overwrites, in place and at every depth, every element of every slice and every member
+// of every map of a tree the caller owns.
+func scrubTree(v interface{}) {
+	switch t := v.(type) {
+	case []interface{}:
+		for i := range t {
+			scrubTree(t[i])
+			t[i] = "SCRUBBED"
+		}
+	case map[string]interface{}:
+		for k := range t {
+			scrubTree(t[k])
+			t[k] = "SCRUBBED"
+		}
+	}
 }
